@@ -438,6 +438,38 @@ def r4(ctx, retsets):
     want = {"pfx_record.asn", "pfx_record.prefix", "pfx_record.min_len", "pfx_record.max_len", "pfx_record.socket"}
     ctx.check(okl and want <= fields, "C01.R4", "node2pfx_record:all-elements-all-fields", "%s:%d" % (nr.relfile, nr.line),
               "loop over all elements: %s, fields written: %s" % (okl, sorted(f.split(".")[1] for f in fields if f)), key="C01.R4:node2pfx_record")
+    # record i is made from element i: the per-element fields are read through the same loop index that selects the record written
+    ix = [L for L in loops if L["init"] == "#0"]
+    mism = []
+    npairs = 0
+    if ix:
+        # the loop's advancing variables: its index, or a pointer that moves on by one element per iteration
+        adv = set()
+        for ph in nr.blocks[ix[0]["header"]].insts:
+            if ph.op != "phi":
+                break
+            me = ("phi", ph.id)
+            for v, b in ph["inc"]:
+                if b in ix[0]["body"]:
+                    e = vf.expr(nr, v)
+                    if e in (("bin", "add", me, ("c", 1)),) or (e[0] in ("ptradd", "idx") and e[1] == me and e[2] == ("c", 1)):
+                        adv.add(me)
+        is_adv = lambda x: x in adv
+        for st in nr.all_insts():
+            if st.op != "store" or vf.root_of(vf.expr(nr, st["ptr"])) != ("arg", 1):
+                continue
+            f = vf.store_field(st)
+            if f not in ("pfx_record.asn", "pfx_record.max_len", "pfx_record.socket"):
+                continue
+            npairs += 1
+            dst, src = vf.expr(nr, st["ptr"]), vf.expr(nr, st["val"])
+            dst_by_i = vf.mentions(dst, is_adv)
+            src_by_i = src[0] == "load" and vf.mentions(src[1], is_adv) and vf.last_field(src[1]) == "data_elem." + f.split(".")[1]
+            if not (dst_by_i and src_by_i):
+                mism.append((st, f))
+    ctx.check(bool(ix) and npairs >= 3 and not mism, "C01.R4", "node2pfx_record:record-i-from-element-i", (mism[0][0].loc() if mism else "%s:%d" % (nr.relfile, nr.line)),
+              ("records[i].%s is not taken from element i of the node" % mism[0][1].split(".")[1]) if mism else
+              "asn, max_len and socket of records[i] are loaded from ary[i] with the loop's own index", key="C01.R4:node2pfx_record:index")
 
 
 def r7(ctx):
